@@ -30,9 +30,29 @@
       `C13_ip_v4mapped_counterexample`).
   (Values no Go value can be — longs / decimals / durations outside int64, ip values wider than their family — are
   outside too; they are not values of the Go types.)
+
+  SECOND ROUND (sections at the end of the file; models CedarGo/Model/Json/{EntityMap,Diagnostic,Coerce}.lean, ops
+  emjson-encode / emjson-reencode / diagjson-encode / diagjson-decode / decision-encode / decision-decode / jstr-token /
+  coerce-nested / coerce-entity):
+    * ENTITY MAPS, full strength on the entity fragment: `C13_entitymap_json_roundtrip`, `_stable`, `_encoding_sorted`
+      (strictly increasing `UID.String()`), `_encoding_order_independent`, `C13_uidString_injective`.  Duplicate UIDs on
+      input are ACCEPTED, the last entry wins (`C13_entitymap_duplicate_uid_last_wins`, for every entity list) — a
+      document that is no entity map's encoding is decoded with silent loss: `C13_entitymap_duplicate_uid_counterexample`,
+      known finding entitymap-duplicate-uid-last-wins.
+    * DIAGNOSTIC, full strength: `C13_diagnostic_json_roundtrip` (every field is encoded; equality up to nil-vs-empty
+      slices, the one thing `omitempty` drops: `C13_diagnostic_empty_slice_counterexample`), `_stable`.
+    * DECISION: `C13_decision_json_roundtrip`.  "Every other JSON value is rejected" is FALSE — the decoder compares raw
+      bytes and has no error path: `C13_decision_unknown_accepted_counterexample`, `C13_decision_escaped_spelling_counterexample`
+      (known findings decision-unknown-accepted, decision-escaped-spelling).
+    * NESTED COERCION, full strength on the value fragment: `C13_coercion_nested_spellings_agree` (every schema type, every
+      mix of explicit / implicit spellings at any depth), `_two_spellings`, `_explicit_is_spelling`, `_spellings_injective`,
+      `C13_coercion_entity_spellings_agree` (attributes by shape, tags by tag type).
 -/
 import CedarGoProofs.Lemmas.C13Leaves
 import CedarGoProofs.Lemmas.C14SetOrder
+import CedarGoProofs.Lemmas.C13EntityMapSort
+import CedarGoProofs.Lemmas.C13Diag
+import CedarGoProofs.Lemmas.C13CoerceWF
 namespace CedarGo
 open JsonModel Scalars
 
@@ -392,5 +412,285 @@ theorem C13_coerce_implicit_decimal_inrange (d : Int) (h : InI64 d) :
 theorem C13_coerce_implicit_ip_inrange (a : IPNet) (hv : a.Valid) (h4 : ¬ a.Is4In6) :
     (decodeValue (.str (printIPNet a))).map (coerceValue (.ext "ipaddr")) = .ok (.ip a) :=
   C13_coerce_implicit_ip _ (wf_ip _ (by simp [ipInRange, hv, h4]))
+
+/-! ## Entity maps (`types.EntityMap`): the encoding is the `UID.String()`-sorted array
+
+Model: CedarGo/Model/Json/EntityMap.lean.  An entity map is an association list with pairwise different UIDs (`IsMap`); the
+list order stands for the arbitrary order in which Go iterates the map. -/
+
+/-- a UID-keyed finite map: no UID occurs twice -/
+def Entities.IsMap (m : Entities) : Prop := (keysOf m).Nodup
+/-- every entity of the map is in the entity fragment of `C13_entity_json_roundtrip_inrange` -/
+def Entities.InRangeJson (m : Entities) : Prop := ∀ e ∈ m, e.2.InRangeJson
+
+/-- the sort key of `EntityMap.MarshalJSON`, `EntityUID.String()` = Type ++ `::"` ++ EscapeString(ID) ++ `"`, never coincides
+    for two different UIDs — so `slices.SortFunc` (not stable) has exactly one possible result -/
+theorem C13_uidString_injective (u v : UID) (h : uidString u = uidString v) : u = v := uidString_inj u v h
+
+/-- **the encoding is the UID-sorted array**: `null` for the empty map, otherwise the encodings of the entities listed in
+    STRICTLY increasing `UID.String()` order, each entity exactly once -/
+theorem C13_entitymap_encoding_sorted (m : Entities) (hk : m.IsMap) :
+    encodeEntityMap m = (if m.isEmpty then J.null else .arr ((sortEntities m).map encodeEntity)) ∧
+    (sortEntities m).Perm m ∧ (sortEntities m).Pairwise (fun a b => uidString a.1 < uidString b.1) := by
+  refine ⟨rfl, sortEntities_perm m, ?_⟩
+  have hne : (sortEntities m).Pairwise (fun a b => a.1 ≠ b.1) := by
+    have := sortEntities_nodup hk
+    simpa [keysOf, List.Nodup, List.pairwise_map] using this
+  refine ((sortEntities_pairwise m).and hne).imp ?_
+  intro a b ⟨hle, hn⟩
+  exact String.not_le.mp (fun hba => hn (uidString_inj _ _ (String.le_antisymm hle hba)))
+
+/-- **independent of the insertion / iteration order**: two listings of the same map encode identically -/
+theorem C13_entitymap_encoding_order_independent (m₁ m₂ : Entities) (hk : m₁.IsMap) (hp : m₁.Perm m₂) :
+    encodeEntityMap m₁ = encodeEntityMap m₂ := by
+  have he : m₁.isEmpty = m₂.isEmpty := by
+    have := hp.length_eq
+    cases m₁ <;> cases m₂ <;> simp_all
+  simp only [encodeEntityMap, he, sortEntities_congr hk hp]
+
+/-- **Round trip**: decoding the encoding succeeds with the same finite map (listed in encoding order: a permutation of `m`
+    that answers every lookup like `m`) -/
+theorem C13_entitymap_json_roundtrip (m : Entities) (hk : m.IsMap) (hw : m.InRangeJson) :
+    decodeEntityMap (encodeEntityMap m) = .ok (sortEntities m) ∧ (sortEntities m).Perm m ∧
+    ∀ u, Entities.get (sortEntities m) u = Entities.get m u := by
+  refine ⟨?_, sortEntities_perm m, fun u => get_perm (sortEntities_nodup hk) (sortEntities_perm m) u⟩
+  cases hm : m with
+  | nil => simp [encodeEntityMap, sortEntities, decodeEntityMap, decodeEntities]
+  | cons e rest =>
+    rw [← hm]
+    have hne : m.isEmpty = false := by rw [hm]; rfl
+    have hdec : ∀ x ∈ sortEntities m, decodeEntity (encodeEntity x) = .ok x := fun x hx =>
+      C13_entity_json_roundtrip_inrange x.1 x.2 (hw x ((sortEntities_perm m).mem_iff.mp hx))
+    simp only [encodeEntityMap, hne, Bool.false_eq_true, if_false, decodeEntityMap, decodeEntities,
+      mapMR_ok_of_forall decodeEntity encodeEntity (sortEntities m) hdec, bind, Except.bind]
+    rw [foldl_entInsert_nodup (sortEntities m) [] (by simpa using sortEntities_nodup hk)]
+    simp
+
+/-- a map that is already listed in encoding order is returned verbatim -/
+theorem C13_entitymap_json_roundtrip_exact (m : Entities) (hk : m.IsMap) (hw : m.InRangeJson)
+    (hs : m.Pairwise (fun a b => uidString a.1 ≤ uidString b.1)) : decodeEntityMap (encodeEntityMap m) = .ok m := by
+  rw [(C13_entitymap_json_roundtrip m hk hw).1, sortEntities_of_sorted hk hs]
+
+/-- **Stability**: encoding what was decoded gives the first encoding again -/
+theorem C13_entitymap_json_stable (m m' : Entities) (hk : m.IsMap) (hw : m.InRangeJson)
+    (h : decodeEntityMap (encodeEntityMap m) = .ok m') : encodeEntityMap m' = encodeEntityMap m := by
+  rw [(C13_entitymap_json_roundtrip m hk hw).1] at h
+  cases h
+  simp only [encodeEntityMap, sortEntities_isEmpty, sortEntities_idem hk]
+
+example : Entities.IsMap [(("A", "x"), ⟨[], [], []⟩), (("A ", "x"), ⟨[("A", "x")], [("n", .long 1)], []⟩)] ∧
+    Entities.InRangeJson [(("A", "x"), ⟨[], [], []⟩), (("A ", "x"), ⟨[("A", "x")], [("n", .long 1)], []⟩)] := by
+  refine ⟨by simp [Entities.IsMap, keysOf], ?_⟩
+  intro e he
+  simp only [List.mem_cons, List.not_mem_nil, or_false] at he
+  rcases he with rfl | rfl <;> exact ⟨by decide +kernel, by decide +kernel, by decide +kernel⟩
+
+/-- **Duplicate UIDs on input: the last entry wins, silently.**  For ANY list of entities (UIDs may repeat) the array of
+    their encodings is accepted, and looking a UID up in the decoded map finds the LAST entry of the array with that UID;
+    the earlier entries leave no trace. -/
+theorem C13_entitymap_duplicate_uid_last_wins (es : Entities) (hw : ∀ e ∈ es, e.2.InRangeJson) :
+    ∃ m, decodeEntityMap (.arr (es.map encodeEntity)) = .ok m ∧
+      ∀ u, Entities.get m u = (es.reverse.find? (fun e => e.1 == u)).map (·.2) := by
+  have hdec : ∀ x ∈ es, decodeEntity (encodeEntity x) = .ok x := fun x hx => C13_entity_json_roundtrip_inrange x.1 x.2 (hw x hx)
+  refine ⟨es.foldl (fun acc e => entInsert e acc) [], ?_, fun u => ?_⟩
+  · simp only [decodeEntityMap, decodeEntities, mapMR_ok_of_forall decodeEntity encodeEntity es hdec, bind, Except.bind]
+  · rw [get_foldl_entInsert u es []]
+    cases es.reverse.find? (fun e => e.1 == u) <;> rfl
+
+/-- FULL STATEMENT (violated): "a document that names one UID twice is rejected" — it is not the encoding of any entity map
+    (`C13_entitymap_encoding_sorted`: every UID once).  cedar-go accepts it and drops the earlier entity (known finding
+    entitymap-duplicate-uid-last-wins; the Rust implementation reports a duplicate-entry error). -/
+theorem C13_entitymap_duplicate_uid_counterexample :
+    ∃ (u : UID) (d₁ d₂ : EntityData), d₁.InRangeJson ∧ d₂.InRangeJson ∧ d₁.attrs ≠ d₂.attrs ∧
+      decodeEntityMap (.arr [encodeEntity (u, d₁), encodeEntity (u, d₂)]) = .ok [(u, d₂)] := by
+  refine ⟨("A", "x"), ⟨[], [("k", .long 1)], []⟩, ⟨[], [("k", .long 2)], []⟩,
+    ⟨by decide +kernel, by decide +kernel, by decide +kernel⟩, ⟨by decide +kernel, by decide +kernel, by decide +kernel⟩, by simp, ?_⟩
+  have h1 := C13_entity_json_roundtrip_inrange ("A", "x") ⟨[], [("k", .long 1)], []⟩
+    ⟨by decide +kernel, by decide +kernel, by decide +kernel⟩
+  have h2 := C13_entity_json_roundtrip_inrange ("A", "x") ⟨[], [("k", .long 2)], []⟩
+    ⟨by decide +kernel, by decide +kernel, by decide +kernel⟩
+  simp [decodeEntityMap, decodeEntities, mapMR, h1, h2, bind, Except.bind, entInsert]
+
+/-! ## Diagnostic and Decision (`types/authorize.go`)
+
+Model: CedarGo/Model/Json/Diagnostic.lean.  Every field of `Diagnostic` / `DiagnosticReason` / `DiagnosticError` / `Position`
+is exported and encoded (reasons, errors; policy id, position = filename, offset, line, column; message).  NOT encoded is
+only the difference between a nil and an empty non-nil slice (`omitempty` leaves both out, decoding leaves nil):
+`DiagnosticM.norm` identifies the two, `C13_diagnostic_empty_slice_counterexample` shows the difference is really lost.
+`InRange` = the three numbers of every position fit Go's 64-bit `int` (every Go value does). -/
+
+/-- **Round trip**: decoding the encoding yields the diagnostic itself, nil and empty slices identified -/
+theorem C13_diagnostic_json_roundtrip (d : DiagnosticM) (h : d.InRange) : decodeDiagnostic (encodeDiagnostic d) = .ok d.norm :=
+  decodeDiagnostic_encode d h
+
+/-- without empty non-nil slices (what `Authorize` returns: it only appends) the round trip is exact -/
+theorem C13_diagnostic_json_roundtrip_exact (d : DiagnosticM) (h : d.InRange) (hn : d.norm = d) :
+    decodeDiagnostic (encodeDiagnostic d) = .ok d := by
+  rw [decodeDiagnostic_encode d h, hn]
+
+/-- **Stability** -/
+theorem C13_diagnostic_json_stable (d d' : DiagnosticM) (h : d.InRange) (hd : decodeDiagnostic (encodeDiagnostic d) = .ok d') :
+    encodeDiagnostic d' = encodeDiagnostic d := by
+  rw [decodeDiagnostic_encode d h] at hd
+  cases hd
+  exact encodeDiagnostic_norm d
+
+/-- an empty non-nil `Reasons` slice comes back nil (`{}` on the wire): the only information the JSON form drops -/
+theorem C13_diagnostic_empty_slice_counterexample :
+    ∃ d : DiagnosticM, d.InRange ∧ decodeDiagnostic (encodeDiagnostic d) = .ok ⟨none, none⟩ ∧
+      decodeDiagnostic (encodeDiagnostic d) ≠ .ok d := by
+  have h : (⟨some [], none⟩ : DiagnosticM).InRange := ⟨by simp [sliceAll], trivial⟩
+  refine ⟨⟨some [], none⟩, h, by rw [decodeDiagnostic_encode _ h]; rfl, fun e => ?_⟩
+  rw [decodeDiagnostic_encode _ h] at e
+  simp [DiagnosticM.norm, normSlice] at e
+
+example : (⟨some [⟨"policy0", ⟨"a.cedar", 12, 2, 3⟩⟩], some [⟨"p1", ⟨"", 0, 0, 0⟩, "boom"⟩]⟩ : DiagnosticM).InRange := by
+  refine ⟨?_, ?_⟩ <;> intro x hx <;> simp only [List.mem_cons, List.not_mem_nil, or_false] at hx <;> subst hx <;> decide
+
+/-- **Decision round trip**: both decisions survive, the text written is the JSON string naming the decision -/
+theorem C13_decision_json_roundtrip (allow : Bool) :
+    decodeDecisionText (encodeDecisionText allow) = allow ∧
+    (jsonStringToken (encodeDecisionText allow)).bind decisionOfString = some allow ∧
+    encodeDecisionText (decodeDecisionText (encodeDecisionText allow)) = encodeDecisionText allow := by
+  cases allow <;> decide +kernel
+
+/-- FULL STATEMENT (violated): "every JSON value other than the strings allow / deny is rejected".  `Decision.UnmarshalJSON`
+    has no error path at all: it returns `string(b) == "\"allow\""`.  A string that names no decision decodes to Deny
+    (known finding decision-unknown-accepted; the same holds for `null`, numbers, objects …). -/
+theorem C13_decision_unknown_accepted_counterexample :
+    ∃ raw s, jsonStringToken raw = some s ∧ decisionOfString s = none ∧ decodeDecisionText raw = false :=
+  ⟨"\"permit\"", "permit", by decide +kernel, by decide +kernel, by decide +kernel⟩
+
+/-- … and because the RAW BYTES are compared, a JSON string that denotes `allow` but is written with an escape decodes to
+    Deny: two spellings of one datum, two decisions (known finding decision-escaped-spelling) -/
+theorem C13_decision_escaped_spelling_counterexample :
+    ∃ raw, jsonStringToken raw = some "allow" ∧ decodeDecisionText raw = false ∧
+      jsonStringToken (encodeDecisionText true) = some "allow" ∧ decodeDecisionText (encodeDecisionText true) = true :=
+  ⟨"\"\\u0061llow\"", by decide +kernel, by decide +kernel, by decide +kernel, by decide +kernel⟩
+
+/-! ## Schema-guided coercion at any nesting depth (`x/exp/types/json.go`)
+
+`Spelling t v u` (Lemmas/C13Coerce.lean, `spells`): `v` is a value of schema type `t`, and `u` is what the unguided decoder
+returns for one of the accepted spellings of `v` in a position typed `t` — chosen INDEPENDENTLY at every leaf, at any depth
+under sets and records:
+  * entity-typed leaf: the explicit escape `{"__entity":{type,id}}` (decodes to the entity) or the implicit object
+    `{"type","id"}` (decodes to a record);
+  * extension-typed leaf: the explicit escape `{"__extn":{fn,arg}}` (decodes to the extension value) or a bare string — ANY
+    string the extension's parser maps to the value, not only the canonical text (`"1.5"`, `"1.50"`);
+  * String / Long / Boolean leaves and attributes the record type does not declare: the one explicit form.
+`encodeValue u` is the JSON document of that spelling.  The bare object `{"fn","arg"}` (accepted by `Decimal.UnmarshalJSON`
+etc. in a TYPED Go position) is NOT a spelling here: in a value position it is a record and coercion leaves it one
+(`C13_coercion_bare_fn_arg_stays_record`); `UnmarshalJSONWithSchema` then refuses the entity in validation, so no datum is
+decoded to a different value.  `AttrsDistinct`: every record type names each attribute once (Go: a map — always). -/
+
+/-- every record type inside `t` names each attribute once -/
+def JsonModel.STy.AttrsDistinct (t : STy) : Prop := tyOK t = true
+/-- `v` is a value of schema type `t` -/
+def Value.HasType (v : Value) (t : STy) : Prop := hasTy v t = true
+/-- see the section header -/
+def Spelling (t : STy) (v u : Value) : Prop := spells v t u
+instance (t : STy) : Decidable t.AttrsDistinct := by unfold JsonModel.STy.AttrsDistinct; infer_instance
+instance (v : Value) (t : STy) : Decidable (v.HasType t) := by unfold Value.HasType; infer_instance
+
+/-- **all accepted spellings decode to the datum**: for every schema type `t`, every value `v` of the proved fragment and
+    every spelling of `v` in a position typed `t` — any mix of explicit and implicit forms at any depth — unguided decoding
+    followed by `coerceValue t` returns exactly `v` -/
+theorem C13_coercion_nested_spellings_agree (t : STy) (v u : Value) (ht : t.AttrsDistinct) (hr : v.NoReservedKeys)
+    (hc : v.Canonical) (hi : v.InRange) (hs : Spelling t v u) : decodeCoerced t (encodeValue u) = .ok v := by
+  have hw : vWF v = true := C13_wf_of_inRange v hc hi
+  have hdec := decodeValue_encodeValue u (spells_wf v t u hs hw) (spells_noReserved v t u hs hr)
+  simp only [decodeCoerced, hdec, Except.map, coerce_spells v t u ht hc hs]
+
+/-- … hence any two spellings of one datum decode to equal values (the explicit one included: `C13_coercion_explicit_is_spelling`) -/
+theorem C13_coercion_nested_two_spellings (t : STy) (v u₁ u₂ : Value) (ht : t.AttrsDistinct) (hr : v.NoReservedKeys)
+    (hc : v.Canonical) (hi : v.InRange) (h₁ : Spelling t v u₁) (h₂ : Spelling t v u₂) :
+    decodeCoerced t (encodeValue u₁) = decodeCoerced t (encodeValue u₂) := by
+  rw [C13_coercion_nested_spellings_agree t v u₁ ht hr hc hi h₁, C13_coercion_nested_spellings_agree t v u₂ ht hr hc hi h₂]
+
+/-- the all-explicit document `encodeValue v` is a spelling of every well-typed value (so the hypothesis `Spelling` is
+    satisfiable for every typed value, and coercion leaves explicit documents alone) -/
+theorem C13_coercion_explicit_is_spelling (t : STy) (v : Value) (h : v.HasType t) : Spelling t v v := spells_self v t h
+
+/-- coercion never confuses two data: if the unguided decodings of spellings of `v` and `v'` are `Equal`, so are `v`, `v'`
+    (this is why the duplicate elimination of `NewSet`, which runs BEFORE coercion, cannot drop a member) -/
+theorem C13_coercion_spellings_injective (t : STy) (v u v' u' : Value) (h : Spelling t v u) (h' : Spelling t v' u')
+    (hb : u.beq u' = true) : v.beq v' = true := spells_inj v t u v' u' h h' hb
+
+-- non-vacuity: a record of {set of entity references, decimal, record of a set of ip addresses}, spelled with a mix of forms
+example :
+    let t : STy := .record [("friends", .set (.entity "User")), ("limit", .ext "decimal"), ("net", .record [("allow", .set (.ext "ipaddr"))])]
+    let v : Value := .record [("friends", .set [.entity "User" "a", .entity "User" "b"]), ("limit", .decimal 15000),
+      ("net", .record [("allow", .set [.ip ⟨false, 167772161, 32⟩])]), ("other", .str "x")]
+    let u : Value := .record [("friends", .set [implicitRec "User" "a", .entity "User" "b"]), ("limit", .str "1.50"),
+      ("net", .record [("allow", .set [.str "10.0.0.1"])]), ("other", .str "x")]
+    t.AttrsDistinct ∧ v.NoReservedKeys ∧ v.Canonical ∧ v.InRange ∧ v.HasType t ∧ Spelling t v u := by
+  refine ⟨by decide +kernel, by decide +kernel, by decide +kernel, by decide +kernel, by decide +kernel, ?_⟩
+  have p1 : parseDecimal "1.50" = .ok 15000 := by decide +kernel
+  have p2 : parseIP "10.0.0.1" = .ok ⟨false, 167772161, 32⟩ := by decide +kernel
+  simp only [Spelling, spells, spellsKV, spellsL, extSpells]
+  refine ⟨_, _, rfl, rfl, _, _, rfl, ?_, _, _, rfl, ?_, _, _, rfl, ?_, _, _, rfl, ?_, rfl⟩
+  · exact ⟨_, _, rfl, rfl, _, _, rfl, ⟨⟨_, rfl⟩, Or.inr rfl⟩, _, _, rfl, ⟨⟨_, rfl⟩, Or.inl rfl⟩, rfl⟩
+  · exact ⟨_, rfl, rfl, Or.inr ⟨_, rfl, p1⟩⟩
+  · exact ⟨_, _, rfl, rfl, _, _, rfl, ⟨_, _, rfl, rfl, _, _, rfl, ⟨_, rfl, rfl, Or.inr ⟨_, rfl, p2⟩⟩, rfl⟩, rfl⟩
+  · rfl
+
+/-- the bare `{"fn","arg"}` object is a record in a value position and stays one under coercion: it is not accepted as the
+    extension value (typed Go positions accept it: `C13_spellings_agree_extn`) — an asymmetry, not a wrong value -/
+theorem C13_coercion_bare_fn_arg_stays_record :
+    ∃ r, decodeCoerced (.ext "decimal") (.obj [("arg", .str "1.5"), ("fn", .str "decimal")]) = .ok (.record r) ∧
+      decodeDecimalTyped (.obj [("arg", .str "1.5"), ("fn", .str "decimal")]) = .ok (.decimal 15000) := by
+  have e : J.obj [("arg", .str "1.5"), ("fn", .str "decimal")] = encodeValue (.record [("arg", .str "1.5"), ("fn", .str "decimal")]) := by
+    simp [encodeValue, encodeKVs]
+  refine ⟨[("arg", .str "1.5"), ("fn", .str "decimal")], ?_, ?_⟩
+  · rw [e, decodeCoerced, decodeValue_encodeValue _ (by decide +kernel) (by decide +kernel)]
+    simp [Except.map, coerceValue, coerceExtension]
+  · have h := (C13_spellings_agree_extn "decimal" "1.5" (by decide)).2.1
+    have p : parseDecimal "1.5" = .ok 15000 := by decide +kernel
+    simp only [decodeDecimalTyped, h, bind, Except.bind, p]; rfl
+
+/-- **whole entities** (`coerceEntity`): attributes spelled against the entity's shape, every tag value against the tag type;
+    parents and uid are typed positions of the entity format itself (`C13_entity_json_roundtrip_inrange`) -/
+theorem C13_coercion_entity_spellings_agree (se : SchemaEntityM) (uid : UID) (d : EntityData) (uattrs utags : List (String × Value))
+    (hshape : attrsOK se.shape = true) (htags : ∀ t, se.tags = some t → tyOK t = true) (hd : d.InRangeJson)
+    (ha : spellsKV d.attrs se.shape uattrs)
+    (htg : match se.tags with | some t => spellsTags d.tags t utags | none => utags = d.tags) :
+    decodeEntityCoerced (some se) (encodeEntity (uid, ⟨d.parents, uattrs, utags⟩)) = .ok (uid, d) := by
+  obtain ⟨parents, attrs, tags⟩ := d
+  obtain ⟨shape, tagTy⟩ := se
+  obtain ⟨hp, hra, hrt⟩ := hd
+  have wa : recordWF attrs = true := recordWF_of_inRange _ hra
+  have wt : recordWF tags = true := recordWF_of_inRange _ hrt
+  have ca : canonKV attrs = true := by simp only [recordInRange, Bool.and_eq_true] at hra; exact hra.1.1.1
+  have ct : canonKV tags = true := by simp only [recordInRange, Bool.and_eq_true] at hrt; exact hrt.1.1.1
+  have wua : recordWF uattrs = true := recordWF_spellsKV attrs shape uattrs ha wa
+  have sua : keysSorted uattrs = true := by simp only [recordWF, Bool.and_eq_true] at wua; exact wua.1.2
+  have hattrs : coerceAttrs shape uattrs = attrs := by
+    rw [coerceAttrs_eq_map shape hshape uattrs sua, coerce_spellsKV attrs shape uattrs hshape ca ha]
+  cases tagTy with
+  | none =>
+    simp only at htg
+    subst htg
+    have hdec := C13_entity_json_roundtrip_partial uid ⟨parents, uattrs, utags⟩ ⟨hp, wua, wt⟩
+    simp only [decodeEntityCoerced, hdec, Except.map, coerceEntityM, coerceTags, hattrs]
+  | some tt =>
+    simp only at htg
+    have wut : recordWF utags = true := recordWF_spellsTags tags tt utags htg wt
+    have hdec := C13_entity_json_roundtrip_partial uid ⟨parents, uattrs, utags⟩ ⟨hp, wua, wut⟩
+    simp only [decodeEntityCoerced, hdec, Except.map, coerceEntityM, coerceTags, hattrs,
+      spellsTags_coerce tags tt utags (htags tt rfl) ct htg]
+
+-- non-vacuity: an entity whose attribute is an implicit entity reference and whose tag is a bare decimal string
+example :
+    let se : SchemaEntityM := ⟨[("owner", .entity "User")], some (.ext "decimal")⟩
+    let d : EntityData := ⟨[("Group", "g")], [("owner", .entity "User" "a")], [("t", .decimal 15000)]⟩
+    attrsOK se.shape = true ∧ (∀ t, se.tags = some t → tyOK t = true) ∧ d.InRangeJson ∧
+      spellsKV d.attrs se.shape [("owner", implicitRec "User" "a")] ∧ spellsTags d.tags (.ext "decimal") [("t", .str "1.5")] := by
+  have p : parseDecimal "1.5" = .ok 15000 := by decide +kernel
+  refine ⟨by decide +kernel, ?_, ⟨by decide +kernel, by decide +kernel, by decide +kernel⟩, ?_, ?_⟩
+  · intro t ht; cases ht; rfl
+  · simp only [spellsKV, spells]
+    exact ⟨_, _, rfl, ⟨⟨_, rfl⟩, Or.inr rfl⟩, rfl⟩
+  · simp only [spellsTags, spells, extSpells]
+    exact ⟨_, _, rfl, ⟨_, rfl, rfl, Or.inr ⟨_, rfl, p⟩⟩, rfl⟩
 
 end CedarGo
